@@ -295,6 +295,10 @@ class Conn:
             elif r.startswith('greet:'):
                 self.out += j2b(r[6:])
                 self.closed_by_server = True
+            elif r.startswith('paced:'):
+                # a throttling server: the banner leaves only so many (virtual) milliseconds after the connection arrived
+                self.ready_at = _CUR[0].clock + int(r[6:]) / 1000.0
+                self.start()
             return
         f = server.fault_for('connect', idx)
         if f == 'close':
@@ -808,10 +812,16 @@ class FakeNet:
                     rr.append(orig)
             elif s.pending_error is not None and s.pending_error != 'never':
                 rr.append(orig)
-            elif s.conn is not None and (len(s.conn.out) > 0 or s.conn.closed_by_server):
+            elif s.conn is not None and (len(s.conn.out) > 0 or s.conn.closed_by_server) and getattr(s.conn, 'ready_at', 0) <= self.clock:
                 rr.append(orig)
         if not rr:
-            self.advance(timeout or 0)
+            # data that is on its way arrives when it is due, not at the end of the waiting time (as with a real select)
+            due = [s.conn.ready_at for s in rs if isinstance(s, VSocket) and s.conn is not None and getattr(s.conn, 'ready_at', 0) > self.clock and (len(s.conn.out) > 0 or s.conn.closed_by_server)]
+            if due and min(due) - self.clock <= (timeout or 0):
+                self.advance(min(due) - self.clock)
+                rr = [orig for orig, s in zip(r, rs) if isinstance(s, VSocket) and s.conn is not None and (len(s.conn.out) > 0 or s.conn.closed_by_server) and getattr(s.conn, 'ready_at', 0) <= self.clock]
+            else:
+                self.advance(timeout or 0)
         return rr, [], []
 
     @contextlib.contextmanager
